@@ -54,6 +54,17 @@ def inputs(chk):
             t, _, _ = gen_doc(rng, kind)
             out.append(("tdoc", [kind.encode()], t))
             out.append(("tdoc", [kind.encode()], gen.mutate(rng, t, NOISE)))
+            # field names that differ only in case, with different values: the outcome must not depend on which
+            # of them a map walk meets first
+            ls = [l for l in t.split(b"\n") if l and not l.startswith((b" ", b"\t")) and b":" in l]
+            if ls:
+                extra = []
+                for l in [ls[0]] + rng.sample(ls, min(len(ls), 2)):
+                    k, v = l.split(b":", 1)
+                    extra += [k.lower() + b": " + rng.choice([b"one", b"2.0-1", b"amd64"]), k.upper() + b": " + rng.choice([b"two", b"3.0-1", b"i386"])]
+                out.append(("tdoc", [kind.encode()], t + b"\n".join(extra) + b"\n"))
+                drop = ls[0].split(b":", 1)[0]
+                out.append(("tdoc", [kind.encode()], b"\n".join(x for x in t.split(b"\n") if not x.startswith(drop + b":")) + b"\n".join(extra) + b"\n"))
         out.append(("tdoc", [kind.encode()], big(rng, NOISE, 20000)))
     for kind in ("binary_index", "source_index"):
         for _ in range(n // 3):
